@@ -19,4 +19,5 @@ for r in rows:
     print('| %s | %s | %s |'%r)
 n=len(rows); first=sum(1 for d in glob.glob('/verif/seeded/*/meta.json') if json.load(open(d)).get('caught_by_first_run'))
 print()
-print(f'{n} seeded changes: {first} caught by the first run of the quick check, {n-first} missed at first and caught after the generator/fault set was strengthened (each strengthening is general, not specific to the seed).')
+notc=sum(1 for d in glob.glob('/verif/seeded/*/meta.json') if not json.load(open(d)).get('caught_finally',True))
+print(f'{n} seeded changes: {first} caught by the first run of the quick check of their property, {n-first-notc} missed at first and caught after the generator/fault set was strengthened (each strengthening is general, not specific to the seed), {notc} not a violation of its property as stated and caught by the check of the property it does violate (C04-h).')
